@@ -59,6 +59,9 @@ MUT = [
  ("C18", "qkeras/qtools/generate_layer_data_type_map.py", "        kernel_shape = kernel.shape[:-2] + (1, 1)", "        kernel_shape = kernel.shape[:-3] + (1, 1, 1)", "QDepthwiseConv2D_qbits"),
  ("C18", "qkeras/qtools/generate_layer_data_type_map.py", "        accumulator = bias_accumulator_instance.make_quantizer(\n            kernel_accumulator.output, bias_quantizer)", "        accumulator = kernel_accumulator", "QDense_qbits_x_qbits_bias-qbits"),
  ("C18", "qkeras/qtools/quantized_operators/quantizer_impl.py", "    self.is_signed = quantizer.keep_negative\n", "    self.is_signed = 1\n", "QDense_qbits_x_qbits"),
+ ("C18", "qkeras/qtools/generate_layer_data_type_map.py", "          graph, node_id, quantizer_factory, layer_quantizer, for_reference)\n\n      layer_data_type_map[layer] = LayerDataType(\n          input_quantizer_list,\n          None,\n          None,\n          None,\n          w_shapes,", "          graph, node_id, quantizer_factory, input_quantizer_list[0], for_reference)\n\n      layer_data_type_map[layer] = LayerDataType(\n          input_quantizer_list,\n          None,\n          None,\n          None,\n          w_shapes,", "QActivation_"),
+ ("C18", "qkeras/qtools/generate_layer_data_type_map.py", "          input_qe_list, layer.__class__.__name__)", "          input_qe_list[:1] * 2, layer.__class__.__name__)", "Add_of_two"),
+ ("C18", "qkeras/qtools/quantized_operators/quantizer_impl.py", "    self.is_signed = quantizer.keep_negative\n", "    self.is_signed = 1\n", "QActivation_"),
 ]
 def main(sel=None):
   res = []
